@@ -12,6 +12,7 @@ import (
 	_ "verifengine/props/c04"
 	_ "verifengine/props/c05"
 	_ "verifengine/props/c08"
+	_ "verifengine/props/c09"
 	_ "verifengine/props/c10"
 	_ "verifengine/props/c12"
 	_ "verifengine/props/c13"
